@@ -37,7 +37,7 @@ def describe(tier):
     return {
         "rule": "array cubes with D in {0,1,2} dimensions, EVERY data vector over {0,1} (explicit extent 3), rows N as listed; facts with distinct values per row "
         "(three column orders) or a constant column, missing patterns (all 2^N for one column; structured for several), representations NaN-marked / (float,validity) / "
-        "(int64,validity) / (datetime64,validity); weights none / arrays over {positive, missing}^N with row-specific weights 0.5,1,2,4 / (values,validity) / scalar "
+        "(int64,validity) / (datetime64,validity) / a single datetime64 array with NaT; dimension arrays int64, plus int8/int16/uint8 dimensions on cubes of 200 / 40000 cells (min, max, stddev, sparse comparison); weights none / arrays over {positive, missing}^N with row-specific weights 0.5,1,2,4 / (values,validity) / scalar "
         "(quantile only); both policies; NaN and (0,False) formats. Oracles from the rows of each cell: stddev (ddof=1; weighted = reliability variance x n/(n-1); "
         "missing also for < 2 valid rows); unweighted quantile by linear interpolation at p in %r; weighted quantile: missing rule, invariance under w -> 3w, "
         "result within [min,max] of the valid values; min/max; covariance (aweights normalisation; complete rows when ignoring, per column pair otherwise); "
@@ -88,10 +88,10 @@ def fact_arg(N, cols, pattern, form):
         iv = vals.astype(numpy.int64)
         iv[~va] = -999
         arg = (iv, va)
-    elif form == "datetime":
+    elif form in ("datetime", "datetime-nat"):
         dv = (numpy.array("2020-01-01", dtype="datetime64[D]") + vals.astype(numpy.int64)).astype("datetime64[D]")
         dv[~va] = numpy.datetime64("NaT")
-        arg = (dv, va)
+        arg = (dv, va) if form == "datetime" else dv   # "datetime-nat": a single array whose missing values are NaT
     else:
         raise KeyError(form)
     return arg, x, valid
@@ -408,7 +408,7 @@ def check_data(datas, N, cfg, acc, only=None):
 
     # ---------------- min / max
     if want("min") or want("max"):
-        for form in ("nan", "pair-huge", "int", "datetime"):
+        for form in ("nan", "pair-huge", "int", "datetime", "datetime-nat"):
             for pat in patterns(N, 1, fl):
                 for ignore in (False, True):
                     for stat, op in (("min", min), ("max", max)):
@@ -418,7 +418,7 @@ def check_data(datas, N, cfg, acc, only=None):
                         if only is not None and _js(call) != only["call"]:
                             continue
                         _, x, valid = fact_arg(N, [0], pat, form)
-                        if form == "datetime":
+                        if form in ("datetime", "datetime-nat"):
                             fmts = [(numpy.datetime64("NaT"), False)]
                         else:
                             fmts = [NaN, (0, False)]
@@ -449,7 +449,7 @@ def check_data(datas, N, cfg, acc, only=None):
                                     report(stat, call, "format %d: cell %r reported missing, expected %r" % (fi, coords, exp))
                                 else:
                                     gv = cellidx(v, coords)
-                                    if form == "datetime":
+                                    if form in ("datetime", "datetime-nat"):
                                         gvf = float((gv - numpy.datetime64("2020-01-01", "D")) / numpy.timedelta64(1, "D"))
                                     else:
                                         gvf = float(gv)
@@ -518,8 +518,49 @@ def check_data(datas, N, cfg, acc, only=None):
                         record(stat, call, anym, multi)
 
 
+# dimension arrays in a narrow SIGNED dtype on a cube whose cell count sits in the upper half of the matching unsigned range
+NARROW_DIMS = [(numpy.int8, (2, 100), [[0, 1], [0, 99]]), (numpy.int16, (2, 20000), [[0, 1], [0, 19999]]), (numpy.uint8, (2, 100), [[0, 1], [0, 99]])]
+
+
+def check_narrow_dims(i, acc):
+    """min / max / stddev / covariance on NARROW_DIMS[i], compared sparsely with the per-cell statistic."""
+    from catii.xcubes import xcube
+
+    dt, shape, vals = NARROW_DIMS[i]
+    N = 3
+    total = shape[0] * shape[1]
+    for datas in itertools.product(*[list(itertools.product(v, repeat=N)) for v in vals]):
+        denses = [numpy.array(t, dtype=dt) for t in datas]
+        cells = M.cell_rows([d.astype(numpy.int64) for d in denses], shape, N)
+        base = {"narrow_dims": i, "dtype": numpy.dtype(dt).name, "shape": list(shape), "data": [list(t) for t in datas]}
+        f1, x1, v1 = fact_arg(N, [0], (False,) * N, "nan")
+        f2, x2, v2 = fact_arg(N, [0, 1], (False,) * (2 * N), "nan")
+        for stat, thunk, exp_of in (
+            ("min", lambda: xcube(denses, interacting_shape=shape).min(flat1(fact_arg(N, [0], (False,) * N, "nan")[0]), False, (0, False)), lambda rows: min(x1[r][0] for r in rows)),
+            ("max", lambda: xcube(denses, interacting_shape=shape).max(flat1(fact_arg(N, [0], (False,) * N, "nan")[0]), False, (0, False)), lambda rows: max(x1[r][0] for r in rows)),
+            ("stddev", lambda: xcube(denses, interacting_shape=shape).stddev(flat1(fact_arg(N, [0], (False,) * N, "nan")[0]), None, True, (0, False)), lambda rows: o_stddev(rows, x1, v1, 0, None, None, True)),
+        ):
+            try:
+                v, ok = thunk()
+            except Exception as e:  # noqa
+                acc.violation("xcube:%s" % stat, dict(base, stat=stat), "raised %r" % (e,))
+                continue
+            acc.count("evals", 1)
+            v, miss = numpy.asarray(v), ~numpy.asarray(ok).astype(bool)
+            want = {c: exp_of(rows) for c, rows in cells.items()}
+            want = {c: e for c, e in want.items() if e is not None}
+            if tuple(v.shape) != tuple(shape) or int((~miss).sum()) != len(want):
+                acc.violation("xcube:%s" % stat, dict(base, stat=stat), "%d non-missing cells (shape %r), expected %d at %r" % (int((~miss).sum()), v.shape, len(want), sorted(want)))
+                continue
+            for c, e in want.items():
+                if bool(miss[c]) or not close(float(v[c]), e):
+                    acc.violation("xcube:%s" % stat, dict(base, stat=stat), "cell %r = %r (missing %r), expected %r" % (c, float(v[c]), bool(miss[c]), e))
+                    break
+        acc.case(("narrow", i, datas), nontrivial=len(cells) > 1, outcome=("narrow", i), sample=lambda: base)
+
+
 def blocks(tier):
-    out = []
+    out = [("narrow-dims", {"i": i}) for i in range(len(NARROW_DIMS))]
     for si, cfg in enumerate(SETS[tier]):
         for N in cfg["Ns"]:
             D = cfg["D"]
@@ -531,6 +572,9 @@ def blocks(tier):
 
 
 def run_block(family, p, acc):
+    if family == "narrow-dims":
+        check_narrow_dims(p["i"], acc)
+        return
     cfg = SETS[p["tier"]][p["si"]]
     N, D = p["N"], cfg["D"]
     vecs = list(itertools.product(range(E), repeat=N))
@@ -567,6 +611,11 @@ def replay(case, site=None):
     from ..core import Acc
 
     acc = Acc(ID, [], stop_at_first=False)
+    if "narrow_dims" in case:
+        check_narrow_dims(case["narrow_dims"], acc)
+        for v in acc.violations[:5]:
+            print("  %s :: %s" % (v["site"], v["detail"][:400]))
+        return bool(acc.violations)
     datas = [tuple(t) for t in case["data"]]
     for wl in (0, 1, 2):
         for fl in (0, 1, 2):
